@@ -1234,6 +1234,17 @@ int main(int argc, char **argv)
 					printf(" ok");
 				}
 			}
+		} else if (!strcmp(op, "DC")) {		/* DC : sqfs_copy of the data reader; the history continues on the copy, the
+							   original is dropped (open streams keep their own reference to it).
+							   Fresh mode: the just-created reader is copied (empty caches). */
+			sqfs_data_reader_t *cp = sqfs_copy(c->data);
+			if (cp == NULL) {
+				printf(" copy-failed");
+			} else {
+				sqfs_drop(c->data);
+				c->data = cp;
+				printf(" ok");
+			}
 		} else if (!strcmp(op, "U")) {
 			op_id(c, (sqfs_u32)a);
 		} else if (!strcmp(op, "L")) {		/* L start count : (re)load the fragment table */
